@@ -226,6 +226,74 @@ def run_case(case, tier, with_bptk=False):
     return viol, ncmp
 
 
+_proj_n = [0]
+
+
+def run_case_bptk(case, tier):
+    """the same graph offered to bptk as a scenario manager with a 'source' entry (scenario file in ./scenarios), run with run_scenarios"""
+    import importlib, json, os, shutil, sys
+    _, n_in, n_out, shape0, mode, init, st, dt, rec = case
+    g = graph1(n_in, n_out, shape0, mode, init)
+    d = Fraction(1, rec) if rec else Fraction(str(dt))
+    n = steps_for(dt, rec, tier)
+    stop_f = Fraction(str(st)) + n * d
+    stop = float(stop_f)
+    spec = to_refspec(g, st, stop, d)
+    ref = refsd.RefModel(spec)
+    times = refsd.grid(st, stop_f, d)
+    names = list(spec["elements"])
+    _proj_n[0] += 1
+    pdir = os.path.join(core.scratch_dir(), "c04p_%d_%d" % (os.getpid(), _proj_n[0]))
+    pkg = "c04m%d_%d" % (os.getpid(), _proj_n[0])
+    os.makedirs(os.path.join(pdir, "scenarios"))
+    os.makedirs(os.path.join(pdir, pkg))
+    open(os.path.join(pdir, pkg, "__init__.py"), "w").close()
+    with open(os.path.join(pdir, pkg, "src.stmx"), "w") as f:
+        f.write(to_stmx(g, st, stop, dt, rec))
+    with open(os.path.join(pdir, "scenarios", "a.json"), "w") as f:
+        json.dump({"smx": {"model": pkg + "/gen", "source": pkg + "/src.stmx", "scenarios": {"base": {}}}}, f)
+    viol = []
+    ncmp = 0
+    b = None
+    os.chdir(pdir)
+    sys.path.insert(0, pdir)
+    importlib.invalidate_caches()
+    try:
+        b = core.new_bptk_here()
+        sc = b.get_scenario("smx", "base")
+        keys = {nm: xmile.find_key(sc.model, nm) for nm in names}
+        df = b.run_scenarios(scenarios=["base"], scenario_managers=["smx"], equations=list(keys.values()), return_format="df")
+        idx = [float(x) for x in df.index]
+        if len(idx) != len(times) or any(not core.close(a, float(c)) for a, c in zip(idx, times)):
+            viol.append(("bptk-grid", "run_scenarios index has %d points %r.., reference grid %d points (dt=%r start=%r)" % (len(idx), idx[:3], len(times), float(d), st)))
+        else:
+            for nm in names:
+                col = list(df[keys[nm]])     # by position: for dt = 1/3 the labels are 14-digit roundings of the grid
+                for i, t in enumerate(times):
+                    ncmp += 1
+                    v = col[i]
+                    if not core.close(v, ref.value(nm, t), rel=1e-9, ab=1e-9):
+                        viol.append(("bptk-value/%s" % spec["elements"][nm]["kind"], "%s(%r) = %r, Euler reference %r (dt=%r start=%r)" % (nm, float(t), v, ref.value(nm, t), float(d), st)))
+                        raise StopIteration
+    except StopIteration:
+        pass
+    except Exception as e:
+        import traceback
+        viol.append(("bptk-raises/%s" % type(e).__name__, traceback.format_exc()[-300:]))
+    finally:
+        try:
+            if b is not None:
+                b.destroy()
+        except Exception:
+            pass
+        os.chdir(core.scratch_dir())
+        sys.path.remove(pdir)
+        for k in [k for k in sys.modules if k.startswith(pkg)]:
+            sys.modules.pop(k, None)
+        shutil.rmtree(pdir, ignore_errors=True)
+    return viol, ncmp
+
+
 def cases(tier):
     out = []
     cfgs = [(1, 0), (0, 1), (1, 1), (2, 1), (1, 2), (2, 2), (3, 3), (4, 0), (0, 4), (5, 3), (3, 5), (4, 4)]
@@ -236,6 +304,10 @@ def cases(tier):
                     if tier == "quick" and (SHAPES.index(sh) + ni + no + ("uni", "bi", "mixed").index(mode)) % 3 != 0 and dt not in (0.1, 0.2):
                         continue
                     out.append(("g1", ni, no, sh, mode, 10.0 if (ni + no) % 2 else 2.0, st, dt, rec))
+    # the bptk channel (scenario manager with a 'source' entry + run_scenarios): every run spec, rotating flow shapes
+    for i, (st, dt, rec) in enumerate(RUNSPECS):
+        for j, (ni, no) in enumerate([(1, 1), (2, 1)] if tier == "quick" else cfgs):
+            out.append(("g1b", ni, no, SHAPES[(i + j) % len(SHAPES)], ("uni", "bi", "mixed")[(i + j) % 3], 10.0, st, dt, rec))
     if tier == "thorough":
         for (st, dt, rec) in RUNSPECS:
             for sa in SHAPES:
@@ -256,7 +328,7 @@ _tier = ["quick"]
 
 def _work(part):
     tier, cs = part
-    return [run_case(c, tier) for c in cs]
+    return [run_case_bptk(("g1",) + tuple(c[1:]), tier) if c[0] == "g1b" else run_case(c, tier) for c in cs]
 
 
 def run(ctx):
@@ -281,7 +353,7 @@ def run(ctx):
     ctx.finish({
         "evaluations": len(cs), "flow_configurations": [(1, 0), (0, 1), (1, 1), (2, 1), (1, 2), (2, 2), (3, 3), (4, 0), (0, 4), (5, 3), (3, 5), (4, 4)], "distinct_nontrivial": nontrivial, "value_comparisons": ncmp, "reference_undefined": undefined,
         "rule": "stock/flow graphs (1 stock: in/out configurations %s x 8 flow shapes x uni/bi/mixed; 2 stocks in a chain) x run specs "
-                "(start 0/1/0.5/0.3 x dt in 1,.5,.25,.125,.2,.1,.05,.01,.4,.3 x reciprocal dt 2,3,4,8,10); one .stmx compile + DSL twin per case; "
+                "(start 0/1/0.5/0.3 x dt in 1,.5,.25,.125,.2,.1,.05,.01,.4,.3 x reciprocal dt 2,3,4,8,10); one .stmx compile + DSL twin per case, plus the bptk channel (scenario file with a source entry, run_scenarios) per run spec; "
                 "non-trivial = compiled and compared with the Euler reference" % ("up to 5 inflows / 5 outflows",),
         "samples": [list(c) for c in cs[:3]] + [list(cs[len(cs) // 2])],
     }, assumptions=["non-negative *stocks* (outflow limiting) not modelled", "Euler reference mc/refsd.py on an exact rational grid"])
